@@ -906,3 +906,71 @@ def rule_implicit_followers(check, rule, cg=None):
                                 witness='thread A inside the window (f.__wrapped__ set aside), thread B between its own window and this call: '
                                         'B sees another function than when run alone')
     check.floor(rule, 'implicit followers of __wrapped__/__signature__ in the retrieval closure', n, 1)
+
+
+def rule_cm_saves_raw_entry(check, rule):
+    """C16.R3r (D42): what the window sets aside and later puts back must be the object's *own entry*.  For a class, `getattr(cls, attr)`
+    is what a descriptor stored under that name evaluates to (`__signature__ = specifiers.as_forged` gives a signature); deleting the
+    entry and restoring that value with setattr replaces the descriptor for good.  Every value the enter method records for restoration
+    comes from the object's own namespace (`vars(obj)[attr]` / `obj.__dict__[attr]`); attribute lookup is accepted only as the fallback
+    for objects without a namespace (the handler of the TypeError that vars() raises for them)."""
+    repo = check.repo
+    w = find_cm_window(repo)
+    if w is None:
+        check.holds(rule, '-', 'no delete-on-enter / restore-on-exit context manager in the package', key='cm-window|none')
+        return
+    en = w.enter
+    check.analysed(en)
+    key = '%s|raw-entry' % en.key
+    # names whose value is stored into a container for restoration
+    saved_names = set()
+    for x in ast.walk(en.node):
+        if isinstance(x, ast.Assign) and any(isinstance(t, ast.Subscript) for t in x.targets) and isinstance(x.value, ast.Name):
+            saved_names.add(x.value.id)
+        if isinstance(x, ast.Call) and isinstance(x.func, ast.Attribute) and x.func.attr in ('append', 'setdefault', '__setitem__'):
+            for a in x.args:
+                for n_ in ast.walk(a):
+                    if isinstance(n_, ast.Name):
+                        saved_names.add(n_.id)
+    sources = []
+    for x in ast.walk(en.node):
+        if isinstance(x, ast.Assign) and any(isinstance(t, ast.Name) and t.id in saved_names for t in x.targets):
+            sources.append(x)
+    direct = [x for x in ast.walk(en.node) if isinstance(x, ast.Assign) and any(isinstance(t, ast.Subscript) for t in x.targets)
+              and isinstance(x.value, (ast.Call, ast.Subscript))]
+    sources += direct
+
+    def is_raw(v):
+        return isinstance(v, ast.Subscript) and (
+            (isinstance(v.value, ast.Call) and norm(v.value.func) == 'vars') or
+            (isinstance(v.value, ast.Attribute) and v.value.attr == '__dict__'))
+
+    def is_lookup(v):
+        return isinstance(v, ast.Call) and norm(v.func) == 'getattr' and len(v.args) == 2
+
+    raw = [s for s in sources if is_raw(s.value)]
+    lookups = [s for s in sources if is_lookup(s.value)]
+    if not raw and not lookups:
+        check.inconclusive(rule, site_of(en, en.node), 'where the saved value comes from is not understood', key=key)
+        return
+    bad = []
+    for s in lookups:
+        ok = False
+        t = s
+        while getattr(t, '_parent', None) is not None and t is not en.node:
+            par = t._parent
+            if isinstance(par, ast.ExceptHandler) and par.type is not None and norm(par.type) == 'TypeError':
+                tr = getattr(par, '_parent', None)
+                if isinstance(tr, ast.Try) and any(is_raw(y.value) for b_ in tr.body for y in ast.walk(b_) if isinstance(y, ast.Assign)):
+                    ok = True
+            t = par
+        if not ok:
+            bad.append(s)
+    if bad:
+        check.violation(rule, site_of(en, bad[0]), 'the value set aside is `%s`: what attribute lookup evaluates to, not the object\'s own entry -- for a '
+                        'class whose %s is a descriptor (the documented `__signature__ = specifiers.as_forged`) the entry is deleted and the '
+                        'evaluated value is put back in its place, for good' % (norm(bad[0].value), '/'.join(a for a in ('__wrapped__', '__signature__'))),
+                        key=key, witness='class C: __signature__ = specifiers.as_forged; ... sigtools.signature(C); vars(C)["__signature__"] is now a Signature')
+    else:
+        check.holds(rule, site_of(en, (raw or lookups)[0]), 'the value set aside is the object\'s own entry (vars()/__dict__); attribute lookup only as the '
+                    'fallback for objects without a namespace', key=key)
